@@ -3,7 +3,7 @@ import TunnoxModel.Spec.C11
 /-!
 Line protocol for C11 (see harness/c11/main.go):
   case: c <cmdType> p <0|1> f <conn#> s <snd> r <rcv> t <tok|-> b <0|1> m <ref> g <int> k <ref> d <ref> [e <v> <keys>] [q <fault plan>]
-        W [br <0|1>] [ne <0|1>] conns <n> (<N|U|A|P|F><clientID>[@<node>])* maps <n> (<listen>:<target>:<s|t>:<a|i>)* codes <n> (<target>:<0|1>)* doms <n> (<owner>)*
+        W [br <0|1>] [ne <0|1>] conns <n> (<N|U|A|P|F><clientID>[@<node>])* maps <n> (<listen>:<target>:<s|t>:<a|i>)* codes <n> (<target>:<0|1|activator>)* doms <n> (<owner>)*
   obs:  <run> ~ <run>,  run = ret <0|1> rsp <n|o|f> view <…|-> chg <…|-> dlv <…|-> gone <…|-> [dig <…|->]
         (dig = digests of delivered payloads / stored records; stripped before the comparison with the model)
 The driver runs the `.repaired` variant of the model.
@@ -40,6 +40,11 @@ def normalizeLogins : List Conn → List Conn
     (if c.kind == .auth && rest.any (fun d => d.kind == .auth && d.cid == c.cid && d.node == c.node)
       then { c with kind := .bare } else c) :: normalizeLogins rest
 
+/-- A code `t:a` with `a ≥ 2` was activated by client `a` through the real service: the mapping `a → t` it created is
+part of the world, after the listed mappings, in the order of the codes. -/
+def derivedMaps (codes : List Code) : List Mapping :=
+  codes.filterMap (fun c => c.actBy.map (fun a => ⟨a, c.target, false, true⟩))
+
 def parseMap (s : String) : Option Mapping :=
   match s.splitOn ":" with
   | [l, t, p, a] => do pure ⟨← l.toNat?, ← t.toNat?, p == "s", a == "a"⟩
@@ -47,7 +52,9 @@ def parseMap (s : String) : Option Mapping :=
 
 def parseCode (s : String) : Option Code :=
   match s.splitOn ":" with
-  | [t, a] => do pure ⟨← t.toNat?, a == "1"⟩
+  | [t, a] => do
+    let a ← a.toNat?
+    pure ⟨← t.toNat?, a != 0, if a ≥ 2 then some a else none⟩
   | _ => none
 
 def section_ {α} (tag : String) (p : String → Option α) : List String → Option (List α × List String)
@@ -92,7 +99,7 @@ def parseCase' : List String → Option Case
     if !rest.isEmpty then none
     let f ← f.toNat?
     if f ≥ conns.length then none
-    pure ⟨⟨normalizeLogins conns, maps, codes, doms, noExec, bridge⟩, f,
+    pure ⟨⟨normalizeLogins conns, maps ++ derivedMaps codes, codes, doms, noExec, bridge⟩, f,
       ⟨← ct.toNat?, p == "1", s, r, t, b == "1", ← m.toInt?, ← g.toInt?, ← k.toInt?, ← d.toInt?, 0, extra, faults⟩⟩
   | _ => none
 
